@@ -134,6 +134,15 @@ func (c *Client) handleAcceptVersion(msg protocol.Message) error {
 		)
 	}
 	msgAcceptVersion := msg.(*MsgAcceptVersion)
+	// The peer may only accept a version that we proposed
+	proposedVersionData, ok := c.config.ProtocolVersionMap[msgAcceptVersion.Version]
+	if !ok || proposedVersionData == nil {
+		return fmt.Errorf(
+			"%s: peer accepted protocol version %d, which was not proposed",
+			ProtocolName,
+			msgAcceptVersion.Version,
+		)
+	}
 	protoVersion := protocol.GetProtocolVersion(msgAcceptVersion.Version)
 	if protoVersion.NewVersionDataFromCborFunc == nil {
 		return fmt.Errorf(
@@ -146,6 +155,16 @@ func (c *Client) handleAcceptVersion(msg protocol.Message) error {
 	)
 	if err != nil {
 		return err
+	}
+	// The accepted version data must be for the network that we proposed
+	if versionData.NetworkMagic() != proposedVersionData.NetworkMagic() {
+		return fmt.Errorf(
+			"%s: peer accepted protocol version %d with network magic %d, expected %d",
+			ProtocolName,
+			msgAcceptVersion.Version,
+			versionData.NetworkMagic(),
+			proposedVersionData.NetworkMagic(),
+		)
 	}
 	return c.config.FinishedFunc(
 		c.callbackContext,
